@@ -278,7 +278,8 @@ def gen_symtab_file(rng):
              'weak_fn', 'tls_var', 'common_blk', 'ifunc_resolver', 'with.dots.and$dollar', 'Z3fooILi3EEvv', 'esc\x1bname', 'us\x1f\x1c']
     tab, offs = elfgen.strtab([n.encode() for n in names])
     empty_at = len(tab) - 1          # the terminator of the last string: a non-zero offset of an empty name
-    types = [0, 1, 2, 3, 4, 5, 6]       # STT_GNU_IFUNC / STB_GNU_UNIQUE have no entry in the clone's description tables
+    gnu = rng.random() < 0.3            # an object with the GNU extensions STT_GNU_IFUNC / STB_GNU_UNIQUE (marked by the GNU OS ABI)
+    types = [0, 1, 2, 3, 4, 5, 6] + ([10, 10] if gnu else [])
     nloc = rng.choice([1, 2, 4, 7])
     nglob = rng.choice([0, 1, 3, 8, 20])
     syms = [elfgen.sym_pack(E, is64, 0, 0, 0, 0, 0, 0)]
@@ -286,7 +287,9 @@ def gen_symtab_file(rng):
     for i in range(nloc + nglob):
         local = i < nloc
         typ = rng.choice(types)
-        bind = 0 if local else rng.choice([1, 1, 2])
+        bind = 0 if local else rng.choice([1, 1, 2] + ([10] if gnu else []))
+        if bind == 10 and typ != 10:
+            typ = 1                     # unique binding is for data objects
         if typ == 3:
             bind, name = 0, ''
             if not local:
@@ -311,7 +314,7 @@ def gen_symtab_file(rng):
             elfgen.Sec('.symtab', 2, data=b''.join(syms), link='.strtab', info=1 + nloc, entsize=24 if is64 else 16, align=8),
             elfgen.Sec('.strtab', 3, data=tab)]
     # STT_GNU_IFUNC / STB_GNU_UNIQUE are GNU extensions: assemblers mark such files with the GNU OS ABI
-    osabi = 3 if any(t == 10 or b == 10 for t, b, v, x in shape) else 0
+    osabi = 3 if gnu else 0
     img, info = elfgen.build(cls=cls, le=le, machine=machine, etype=1, osabi=osabi, sections=secs)
     return img, dict(cls=cls, le=le, machine=machine, nloc=nloc, nglob=nglob, kinds=sorted(set(shape))[:12])
 
